@@ -127,6 +127,8 @@ type siteView struct {
 	shrunkPart  int // … of which some but not all business commands were omitted
 	standalone  int // stand-alone bookkeeping commands in X's stream
 	foreignSeen []string
+	selInside   int // link transactions propagated as MULTI, SELECT n, marker …
+	selBefore   int // link transactions propagated as SELECT n, MULTI, marker …
 	// business commands of X's own origin that the link sent to X and X answered with an error
 	rejectedEcho []bizEntry
 }
@@ -222,6 +224,25 @@ func (e *loopEnv) view(run *harness.Run, X string) *siteView {
 			order = append(order, p.Unit)
 		}
 		byUnit[p.Unit] = append(byUnit[p.Unit], p)
+	}
+	// where the master put the SELECT a link transaction needed (the stream was in another database,
+	// or had none yet): inside the MULTI (Redis ≥ 7 model) or in front of it (6.2 model)
+	multiOpen := -1
+	for i := range plog {
+		p := &plog[i]
+		if _, h := harn[p.Conn]; h {
+			continue
+		}
+		switch p.Kind {
+		case fakeredis.PropMulti:
+			multiOpen = p.Unit
+		case fakeredis.PropSelect:
+			if p.Txn != 0 && p.Unit == multiOpen {
+				v.selInside++
+			} else if p.Txn != 0 {
+				v.selBefore++
+			}
+		}
 	}
 	omitted := map[int64]int{} // EXEC request → business commands omitted as no-ops
 	for i := range plog {
@@ -441,7 +462,7 @@ func (e *loopEnv) judge(run *harness.Run, X string) *siteView {
 		switch {
 		case x.n == 0:
 			// links are in-order: once a later item of the same stream was executed, this one was passed over
-			if !e.s2Reached && i > lastDelivered {
+			if e.aborted != "" && i > lastDelivered {
 				run.Count("client_writes_still_in_flight_at_stop", 1)
 				continue
 			}
